@@ -211,6 +211,25 @@ def run_projects(ctx: core.Ctx, projects: list[dict[str, Any]], stream: str) -> 
                                      f"platform={e['sys_platform']} extras={e['extra']}, declaration says {want}", {**wit, "version": vt, "env": e, "dep_decl": d})
                     break
                 ctx.count("oracle:compared")
+        # Requires-Python: the reference specifier set admits exactly the interpreters the declared range admits
+        # (interpreters of the release series format_python_constraint knows: PYTHON_VERSION)
+        from poetry.core.version.helpers import PYTHON_VERSION
+        series = {v[:-2] for v in PYTHON_VERSION}
+        pys = [p for p in G.PY_FULL if ".".join(p.split(".")[:2]) in series]
+        rp = [(pr, meta) for pr, meta in built if pr.get("python") and meta.requires_python]
+        for (pr, meta), r in zip(rp, MC.ref_batch([{"op": "specv", "s": meta.requires_python, "vs": pys} for pr, meta in rp]) if rp else []):
+            if r[0] != "ok":
+                ctx.violate(f"requires-python-rejected:{pr['python']}", f"Requires-Python {meta.requires_python!r} (declared python = {pr['python']!r}) "
+                            f"is rejected by the reference: {r}", {"python": pr["python"]})
+                continue
+            decl = parse_constraint(pr["python"])
+            for p, got in zip(pys, r[1]):
+                want = decl.allows(Version.parse(p))
+                if got is not None and got != want:
+                    ctx.violate(f"requires-python:{pr['python']}", f"declared python = {pr['python']!r} -> Requires-Python {meta.requires_python!r}: reference admits "
+                                f"{p} = {got}, declaration says {want}", {"python": pr["python"]})
+                    break
+                ctx.count("oracle:requires-python")
         for pr, meta in built:
             want_extras = sorted(canonicalize_name(x) for x in pr["extras"])
             if sorted(meta.provides_extra) != want_extras:
@@ -312,7 +331,7 @@ def gen_project(rnd: Any) -> dict[str, Any]:
     for d in deps:
         if "in_extras" in d:
             d["in_extras"] = [e for e in d["in_extras"] if e in used]
-    py = rnd.choice([">=3.8", "^3.9", ">=3.7,<4", "*", "~2.7 || ^3.6", ">=3.6,!=3.7.*", "3.9", ">=2.7,!=3.0.*,!=3.1.*,!=3.2.*"])
+    py = rnd.choice([">=3.8", "^3.9", ">=3.7,<4", "*", "~2.7 || ^3.6", ">=3.6,!=3.7.*", "3.9.*", ">=2.7,!=3.0.*,!=3.1.*,!=3.2.*"])
     return {"deps": deps, "extras": used, "python": py, "toml": legacy_pyproject(deps, used, py)}
 
 
@@ -346,6 +365,10 @@ def search(ctx: core.Ctx) -> None:
 def replay(ctx: core.Ctx, payload: dict[str, Any]) -> bool:
     w = payload.get("witness", payload)
     before = len(ctx.violations)
+    if "python" in w and "dep_decl" not in w:
+        pr = {"deps": [], "extras": [], "python": w["python"], "toml": legacy_pyproject([], [], w["python"])}
+        run_projects(ctx, [pr], "replay")
+        return len(ctx.violations) > before
     if "dep_decl" in w:
         d = w["dep_decl"]
         pr = {"deps": [d], "extras": d.get("in_extras", []), "toml": legacy_pyproject([d], d.get("in_extras", []), ">=3.6")}
